@@ -2,6 +2,7 @@
 the obligations in a process pool, applies the known-findings file, replays counter-models and
 writes the evidence file.   Exit codes: 0 held / 1 violation / 2 undecided / 3 checker error."""
 import importlib
+import z3
 import json
 import multiprocessing as mp
 import os
@@ -71,11 +72,21 @@ def work_item(args):
             results = prove.explore(world, lambda ctx: prove.run_lemma(ctx, lemma, name))
         out['paths'] = len(results)
         seen = set()
+        vac = []
         for pr in results:
             if pr.status in ('unsupported',):
                 out['obligations'].append({'name': '%s::path' % name.replace('lentil.', ''), 'status': 'undecided',
                                            'reason': 'unsupported: %s' % pr.detail, 'kind': 'engine',
                                            'time_s': 0, 'solver': '-'})
+            # vacuity guard (see below): remember whether this path's assumptions are contradictory.  A single
+            # such path is merely an infeasible branch the explorer could not prune (axioms are kept out of
+            # its feasibility queries); paths ending in a literally-False obligation are exempt.
+            if pr.obligations and not any(z3.is_false(ob.formula) for ob in pr.obligations):
+                sv = z3.Solver()
+                sv.set('timeout', 2000)
+                for p_ in pr.obligations[-1].pc:
+                    sv.add(p_)
+                vac.append(sv.check() == z3.unsat)
             out['assumptions'] = sorted(set(out['assumptions']) | set(pr.assumptions))
             out['inlined'] = sorted(set(out['inlined']) | set(pr.inlined))
             out['modelled'] = sorted(set(out['modelled']) | set(pr.modelled))
@@ -90,7 +101,6 @@ def work_item(args):
                 if listed:
                     # known findings: quick attempt on the obligation as it stands; otherwise prove it
                     # on the complement of the listed witness predicates
-                    import z3
                     from lvc.interp import Obligation
                     tr = ''.join('T' if t else 'F' for t in pr.trace)
                     v1 = prove.discharge(ob, timeout_ms, quick=True)
@@ -144,6 +154,11 @@ def work_item(args):
                 elif v.status == 'undecided':
                     rec['reason'] = v.reason
                 out['obligations'].append(rec)
+        if vac and all(vac):
+            # every path that carries obligations has contradictory assumptions: nothing was proved at all
+            out['obligations'].append({'name': '%s::vacuity.some_path_has_satisfiable_assumptions' % name.replace('lentil.', ''),
+                                       'status': 'undecided', 'kind': 'vacuity', 'time_s': 0, 'solver': 'z3',
+                                       'reason': 'the assumptions of every path are contradictory: nothing proved here counts'})
         out['sha'] = world.repo.sources()
     except Exception as e:
         out['status'] = 'crash'
